@@ -223,6 +223,7 @@ def strategy_(draw, tier):
     spec["requests"] = draw(strat.requests(spec["size"], unit, count=6, points=request_points(spec), whole_limit=2 << 20))
     spec["via_minimal"] = draw(strat.minimal_handle())
     spec["fault"] = draw(strat.fault())
+    spec["flavours"] = draw(st.booleans())
     if spec.get("motif_request"):
         off, n = spec["motif_request"]
         if off < spec["size"]:
